@@ -87,6 +87,16 @@ def corpus_cases(prop, prefix):
     return out
 
 
+def coqchk_props(run, module):
+    """thorough tier: re-check the compiled property file and everything it depends on with the stand-alone checker"""
+    p = sh(["timeout", "900", "coqchk", "-silent", "-o", "-Q", THEORIES, "Snoopy", "-Q", run.gen, "Gen", "-Q", os.path.join(run.scratch, "props"), "Props", "Props." + module], check=False, timeout=960)
+    m = re.search(r"\* Axioms:\s*(.*?)\n\s*\n", p.stdout, re.S)
+    axioms = m.group(1).strip() if m else "?"
+    if p.returncode != 0:
+        run.violation("proof:coqchk:%s" % module, "proof", "coqchk rejects %s: %s" % (module, p.stdout[-800:]), {"theorem": "coqchk " + module, "coq_log": p.stdout[-3000:]})
+    return {"exit": p.returncode, "axioms": axioms}
+
+
 def new_violations(run):
     """violations that are not known findings (a known finding must not hide a broken obligation)"""
     known = run.load_known()
@@ -257,84 +267,97 @@ def check(run):
         run.violation("dlist:%s" % st, "sanitizer" if st != "ok" else "spec_violation",
                       "util/list.c leaves the abstract list proved for the heap model: model=%s impl=%s" % (m[:200], im[:200]),
                       {"stream": "dlist", "failing_input": c, "cases": [c], "model_output": m, "impl_output": im})
-    # ---------------------------------------------------------------- system level: forced schedules
-    ops, K, _ = calibrate(run, lib, INI_MAIN)
-    plans, meta, P = make_plans(run, ops, run.tier, rng)
-    bad_model = [(T, c, s) for (T, c, s) in plans if s["flags"]]
-    if bad_model:
-        raise CheckError("the model itself reports %s on schedule %s" % (bad_model[0][2]["flags"], bad_model[0][2]["ids"][:40]))
-    results = forced_campaign(run, lib, INI_MAIN, ops, plans, "f")
-    nrun = len(results)
-    seen_sigs = set()
-    for (k, bad, _, err) in results:
-        if bad and bad[0] not in seen_sigs:
-            seen_sigs.add(bad[0])
-            T, c, s = plans[k]
-            run.violation(bad[0], bad[1], bad[2], {"failing_input": {"threads": T, "calls": c, "ops": ops, "schedule": ",".join(map(str, s["ids"]))},
-                                                   "mode": "force", "threads": T, "calls": c, "ops": ops, "schedule": s["ids"], "kinds": s["kinds"], "counts": {str(a): b for a, b in s["counts"].items()},
-                                                   "ini": INI_MAIN.decode(), "stderr": err})
-    # ---------------------------------------------------------------- non-thread-safe build: single-threaded use only
-    nts = build_prod(run, ts=False)
-    ini_nts = b'[snoopy]\noutput = file:@D@/out.log\nmessage_format = "-|%{tid_kernel}|%{cmdline}|%{filename}"\n'
-    rn = run_mt(run, nts, "stress", 1, 3, "-", ini_nts, "nts")
-    badn = ("sched:caller-died:%s" % rn["status"], "crash", "status %s: %s" % (rn["status"], rn["stderr"][-300:])) if rn["status"] != 0 else check_records(rn, 1, 3)
-    if badn:
-        run.violation("nts-" + badn[0], badn[1], "non-thread-safe build, one thread, three calls: " + badn[2],
-                      {"failing_input": {"mode": "stress", "build": "nts", "threads": 1, "calls": 3}, "mode": "stress-nts", "threads": 1, "calls": 3, "ini": ini_nts.decode()})
-    # ---------------------------------------------------------------- search: ThreadSanitizer on forced schedules and under stress
-    tlib, texe = build_tsan(run)
-    ops_w, _, _ = calibrate(run, lib, INI_WIDE, "calib-wide")
-    out = model_lines(run, ["enum\t2\t1\t%s\t1\t100000" % ops_w], "tsan-plans")
-    _, _, sc_all = parse_scheds(out[0])
-    # corpus first: "tsan-preempt <thread> <k>" = that thread is stopped after k of its lock-boundary steps while the other one runs a whole call
-    first = []
-    for line in corpus_cases("C09", "tsan-preempt\t"):
-        f = line.split("\t")
-        t, k = int(f[1]), int(f[2])
-        for s in sc_all:
-            if len(s["ids"]) > k and all(x == t for x in s["ids"][:k]) and s["ids"][k] != t and s not in first:
-                first.append(s)
-                break
-    # one-preemption schedules: thread A stopped at every lock boundary while B runs a whole call; every second one in the quick tier
-    sc = first + [s for s in (sc_all[::2] if quick else sc_all) if s not in first]
-    tenv = {"TSAN_OPTIONS": "exitcode=0 report_signal_unsafe=0 second_deadlock_stack=1"}
-    tres = forced_campaign(run, tlib, INI_WIDE, ops_w, [(2, 1, s) for s in sc], "t", exe=texe, env=tenv, want_tsan=True, workers=8)
-    tsan_seen = {}
-    for (k, bad, ts, err) in tres:
-        for rep in ts:
-            tsan_seen.setdefault(rep, (k, err))
-        if bad and bad[0] not in seen_sigs and bad[1] != "timeout":
-            seen_sigs.add(bad[0])
-            run.violation("tsan-" + bad[0], bad[1], bad[2], {"failing_input": {"threads": 2, "calls": 1, "ops": ops_w, "schedule": ",".join(map(str, sc[k]["ids"]))},
-                                                             "mode": "force-tsan", "threads": 2, "calls": 1, "ops": ops_w, "schedule": sc[k]["ids"], "kinds": sc[k]["kinds"],
-                                                             "counts": {str(a): b for a, b in sc[k]["counts"].items()}, "ini": INI_WIDE.decode(), "stderr": err})
-    nstress = 0
-    for (T, c) in ([(8, 20)] if quick else [(8, 50), (32, 20), (64, 10), (64, 30)]):
-        r = run_mt(run, tlib, "stress", T, c, "-", INI_WIDE, "stress-%d" % T, exe=texe, env=tenv, timeout=600)
-        nstress += T * c
-        for rep in tsan_reports(r["stderr"]):
-            tsan_seen.setdefault(rep, ("stress %dx%d" % (T, c), r["stderr"][-1500:]))
-        if r["status"] != 0:
-            run.violation("stress:caller-died:%s" % r["status"], "crash", "stress run with %d threads x %d calls ended with status %s: %s" % (T, c, r["status"], r["stderr"][-300:]),
-                          {"failing_input": {"mode": "stress", "threads": T, "calls": c}, "mode": "stress", "threads": T, "calls": c, "ini": INI_WIDE.decode()})
-        else:
-            bad = check_records(r, T, c)
-            if bad:
-                run.violation("stress:" + bad[0].split(":", 1)[1], bad[1], "stress run with %d threads x %d calls: %s" % (T, c, bad[2]),
+    stats = {"ops": "", "K": 0, "meta": {}, "P": 2 if quick else 3, "plans": [], "nrun": 0, "tres": [], "nstress": 0, "tsan_seen": {}}
+
+    def system_level():
+        # ---------------------------------------------------------------- system level: forced schedules
+        ops, K, _ = calibrate(run, lib, INI_MAIN)
+        plans, meta, P = make_plans(run, ops, run.tier, rng)
+        bad_model = [(T, c, s) for (T, c, s) in plans if s["flags"]]
+        if bad_model:
+            raise CheckError("the model itself reports %s on schedule %s" % (bad_model[0][2]["flags"], bad_model[0][2]["ids"][:40]))
+        results = forced_campaign(run, lib, INI_MAIN, ops, plans, "f")
+        nrun = len(results)
+        seen_sigs = set()
+        for (k, bad, _, err) in results:
+            if bad and bad[0] not in seen_sigs:
+                seen_sigs.add(bad[0])
+                T, c, s = plans[k]
+                run.violation(bad[0], bad[1], bad[2], {"failing_input": {"threads": T, "calls": c, "ops": ops, "schedule": ",".join(map(str, s["ids"]))},
+                                                       "mode": "force", "threads": T, "calls": c, "ops": ops, "schedule": s["ids"], "kinds": s["kinds"], "counts": {str(a): b for a, b in s["counts"].items()},
+                                                       "ini": INI_MAIN.decode(), "stderr": err})
+        # ---------------------------------------------------------------- non-thread-safe build: single-threaded use only
+        nts = build_prod(run, ts=False)
+        ini_nts = b'[snoopy]\noutput = file:@D@/out.log\nmessage_format = "-|%{tid_kernel}|%{cmdline}|%{filename}"\n'
+        rn = run_mt(run, nts, "stress", 1, 3, "-", ini_nts, "nts")
+        badn = ("sched:caller-died:%s" % rn["status"], "crash", "status %s: %s" % (rn["status"], rn["stderr"][-300:])) if rn["status"] != 0 else check_records(rn, 1, 3)
+        if badn:
+            run.violation("nts-" + badn[0], badn[1], "non-thread-safe build, one thread, three calls: " + badn[2],
+                          {"failing_input": {"mode": "stress", "build": "nts", "threads": 1, "calls": 3}, "mode": "stress-nts", "threads": 1, "calls": 3, "ini": ini_nts.decode()})
+        # ---------------------------------------------------------------- search: ThreadSanitizer on forced schedules and under stress
+        tlib, texe = build_tsan(run)
+        ops_w, _, _ = calibrate(run, lib, INI_WIDE, "calib-wide")
+        out = model_lines(run, ["enum\t2\t1\t%s\t1\t100000" % ops_w], "tsan-plans")
+        _, _, sc_all = parse_scheds(out[0])
+        # corpus first: "tsan-preempt <thread> <k>" = that thread is stopped after k of its lock-boundary steps while the other one runs a whole call
+        first = []
+        for line in corpus_cases("C09", "tsan-preempt\t"):
+            f = line.split("\t")
+            t, k = int(f[1]), int(f[2])
+            for s in sc_all:
+                if len(s["ids"]) > k and all(x == t for x in s["ids"][:k]) and s["ids"][k] != t and s not in first:
+                    first.append(s)
+                    break
+        # one-preemption schedules: thread A stopped at every lock boundary while B runs a whole call; every second one in the quick tier
+        sc = first + [s for s in (sc_all[::2] if quick else sc_all) if s not in first]
+        tenv = {"TSAN_OPTIONS": "exitcode=0 report_signal_unsafe=0 second_deadlock_stack=1"}
+        tres = forced_campaign(run, tlib, INI_WIDE, ops_w, [(2, 1, s) for s in sc], "t", exe=texe, env=tenv, want_tsan=True, workers=8)
+        tsan_seen = {}
+        for (k, bad, ts, err) in tres:
+            for rep in ts:
+                tsan_seen.setdefault(rep, (k, err))
+            if bad and bad[0] not in seen_sigs and bad[1] != "timeout":
+                seen_sigs.add(bad[0])
+                run.violation("tsan-" + bad[0], bad[1], bad[2], {"failing_input": {"threads": 2, "calls": 1, "ops": ops_w, "schedule": ",".join(map(str, sc[k]["ids"]))},
+                                                                 "mode": "force-tsan", "threads": 2, "calls": 1, "ops": ops_w, "schedule": sc[k]["ids"], "kinds": sc[k]["kinds"],
+                                                                 "counts": {str(a): b for a, b in sc[k]["counts"].items()}, "ini": INI_WIDE.decode(), "stderr": err})
+        nstress = 0
+        for (T, c) in ([(8, 20)] if quick else [(8, 50), (32, 20), (64, 10), (64, 30)]):
+            r = run_mt(run, tlib, "stress", T, c, "-", INI_WIDE, "stress-%d" % T, exe=texe, env=tenv, timeout=600)
+            nstress += T * c
+            for rep in tsan_reports(r["stderr"]):
+                tsan_seen.setdefault(rep, ("stress %dx%d" % (T, c), r["stderr"][-1500:]))
+            if r["status"] != 0:
+                run.violation("stress:caller-died:%s" % r["status"], "crash", "stress run with %d threads x %d calls ended with status %s: %s" % (T, c, r["status"], r["stderr"][-300:]),
                               {"failing_input": {"mode": "stress", "threads": T, "calls": c}, "mode": "stress", "threads": T, "calls": c, "ini": INI_WIDE.decode()})
-    if len(tsan_seen) > 4:
-        run.notes.append("ThreadSanitizer reported %d distinct locations; the first 4 are listed as violations: %s" % (len(tsan_seen), sorted("%s:%s" % (f, fn) for (_, f, fn) in tsan_seen)))
-    for (kind, f, fn), (where, err) in sorted(tsan_seen.items(), key=lambda kv: (not isinstance(kv[1][0], int), kv[0]))[:4]:
-        rep = {"tsan_report": {"kind": kind, "file": f, "function": fn}, "ini": INI_WIDE.decode(), "stderr": err}
-        if isinstance(where, int):
-            rep.update({"failing_input": {"threads": 2, "calls": 1, "ops": ops_w, "schedule": ",".join(map(str, sc[where]["ids"])), "tsan": True},
-                        "mode": "force-tsan", "threads": 2, "calls": 1, "ops": ops_w, "schedule": sc[where]["ids"], "kinds": sc[where]["kinds"]})
-        else:
-            rep.update({"failing_input": {"mode": "stress", "run": where, "tsan": True}, "mode": "stress-tsan"})
-        run.violation("tsan:%s:%s:%s" % (kind.replace(" ", "-"), f, fn), "sanitizer",
-                      "ThreadSanitizer: %s in %s (%s) while two threads were inside wrapped exec calls" % (kind, fn, f), rep)
+            else:
+                bad = check_records(r, T, c)
+                if bad:
+                    run.violation("stress:" + bad[0].split(":", 1)[1], bad[1], "stress run with %d threads x %d calls: %s" % (T, c, bad[2]),
+                                  {"failing_input": {"mode": "stress", "threads": T, "calls": c}, "mode": "stress", "threads": T, "calls": c, "ini": INI_WIDE.decode()})
+        if len(tsan_seen) > 4:
+            run.notes.append("ThreadSanitizer reported %d distinct locations; the first 4 are listed as violations: %s" % (len(tsan_seen), sorted("%s:%s" % (f, fn) for (_, f, fn) in tsan_seen)))
+        for (kind, f, fn), (where, err) in sorted(tsan_seen.items(), key=lambda kv: (not isinstance(kv[1][0], int), kv[0]))[:4]:
+            rep = {"tsan_report": {"kind": kind, "file": f, "function": fn}, "ini": INI_WIDE.decode(), "stderr": err}
+            if isinstance(where, int):
+                rep.update({"failing_input": {"threads": 2, "calls": 1, "ops": ops_w, "schedule": ",".join(map(str, sc[where]["ids"])), "tsan": True},
+                            "mode": "force-tsan", "threads": 2, "calls": 1, "ops": ops_w, "schedule": sc[where]["ids"], "kinds": sc[where]["kinds"]})
+            else:
+                rep.update({"failing_input": {"mode": "stress", "run": where, "tsan": True}, "mode": "stress-tsan"})
+            run.violation("tsan:%s:%s:%s" % (kind.replace(" ", "-"), f, fn), "sanitizer",
+                          "ThreadSanitizer: %s in %s (%s) while two threads were inside wrapped exec calls" % (kind, fn, f), rep)
+        stats.update({"ops": ops, "K": K, "meta": meta, "P": P, "plans": plans, "nrun": nrun, "tres": tres, "nstress": nstress, "tsan_seen": tsan_seen})
+    try:
+        system_level()
+    except CheckError as e:
+        # a tree whose proof obligations are broken may also leave the shape the harness is calibrated for: that is a verdict, not a machinery failure
+        if ok:
+            raise
+        run.notes.append("system-level stage stopped on this tree: %s" % str(e)[:500])
+    ops, K, meta, P, plans, nrun, tres, nstress, tsan_seen = (stats[k] for k in ("ops", "K", "meta", "P", "plans", "nrun", "tres", "nstress", "tsan_seen"))
     if not ok and not new_violations(run):
         run.violation("proof:%s" % failed, "proof", "proof obligation no longer checks: %s\n%s" % (failed, log[-1500:]), {"theorem": failed, "coq_log": log[-3000:]})
+    chk = coqchk_props(run, "Properties_C09") if (ok and not quick) else None
     run.coverage.update({
         "evaluations": len(dcases) + nrun + len(tres) + nstress + 3,
         "distinct_nontrivial": len(set(dcases)) + len(set((T, c, tuple(s["ids"])) for (T, c, s) in plans)) + len(tres),
@@ -342,10 +365,10 @@ def check(run):
                 "system level: every schedule of 2 threads x 1 call with <= %d preemptions at lock boundaries (model-enumerated), seeded samples for 2..4 threads x 1..3 calls, "
                 "each executed by libsched.so and compared (sync sequence, own record, own thread id, %%{snoopy_threads}) with the model run on that schedule; "
                 "TSan: one-preemption schedules at every lock boundary with all data sources + stress; distinct = distinct list cases + distinct schedules" % P,
-        "samples": dcases[:2] + [{"threads": plans[0][0], "calls": plans[0][1], "schedule": plans[0][2]["ids"][:40]}],
+        "samples": dcases[:2] + ([{"threads": plans[0][0], "calls": plans[0][1], "schedule": plans[0][2]["ids"][:40]}] if plans else []),
         "distribution": {"dlist_cases": len(dcases), "dlist_mismatches": len(res["mismatch"]), "accessor_calls_per_wrapped_call": len(ops), "lock_windows_per_call": K,
                          "schedules": meta, "forced_runs": nrun, "tsan_forced_runs": len(tres), "tsan_stress_calls": nstress, "tsan_reports": len(tsan_seen),
-                         "globals_classified": len(facts["globals"]), "functions_in_reference_graph": facts["n_functions"], "handlers": hs},
+                         "globals_classified": len(facts["globals"]), "functions_in_reference_graph": facts["n_functions"], "handlers": hs, "coqchk": chk},
         "traces_validated_against_impl": nrun + len(tres) + len(dcases) - len(res["mismatch"]),
     })
     return run.finish(level="proof",
